@@ -132,29 +132,45 @@ void out_list32(const char *k, const uint32_t *p, size_t n) {
  * poison modes of the purity check */
 static unsigned g_poison; /* 0 = no stack poisoning */
 uint8_t gbuf_canary(size_t i) { return (uint8_t)((0xA5 ^ (i * 7)) ^ (g_poison * 0x3B)); }
+/* The usable area ends flush against an inaccessible page when align == 0
+ * (a store beyond `size` faults even if it rewrites the byte already there);
+ * with align != 0 the requested alignment is honoured and at most 15 canary
+ * bytes separate the area from the page.  Below the area: `pad` canary bytes. */
 gbuf gbuf_new(size_t size, unsigned align) {
     gbuf g;
-    g.pad = 1024; /* wide enough to absorb sizeable overruns without corrupting the allocator */
+    size_t ps = (size_t)sysconf(_SC_PAGESIZE);
+    g.pad = 1024;
     g.size = size;
-    g.base = malloc(size + 2 * g.pad + 32);
-    uintptr_t a = (uintptr_t)(g.base + g.pad);
-    a = (a + 15) & ~(uintptr_t)15;
-    g.p = (uint8_t *)a + (align & 15);
-    size_t total = size + 2 * g.pad + 32;
-    for (size_t i = 0; i < total; i++) g.base[i] = gbuf_canary(i);
+    size_t body = size + g.pad + 16;
+    size_t pages = (body + ps - 1) / ps;
+    size_t maplen = (pages + 1) * ps;
+    uint8_t *map = mmap(NULL, maplen, PROT_READ | PROT_WRITE, MAP_PRIVATE | MAP_ANONYMOUS, -1, 0);
+    if (map == MAP_FAILED) die("mmap", NULL);
+    uint8_t *guard = map + pages * ps;
+    if (mprotect(guard, ps, PROT_NONE)) die("mprotect", NULL);
+    uint8_t *p = guard - size;
+    if (align & 15) {
+        size_t s = (size_t)(((uintptr_t)p - (align & 15)) & 15);
+        p -= s;
+    }
+    g.base = map;
+    g.p = p;
+    g.maplen = maplen;
+    g.end = guard;
+    for (uint8_t *q = map; q < guard; q++) *q = gbuf_canary((size_t)(q - map));
     return g;
 }
 void gbuf_prefill(gbuf *g, const uint8_t *src, size_t len) {
     memcpy(g->p, src, len);
 }
 const char *gbuf_guard(const gbuf *g) {
-    size_t total = g->size + 2 * g->pad + 32;
     size_t lo = (size_t)(g->p - g->base);
-    for (size_t i = 0; i < lo; i++) if (g->base[i] != gbuf_canary(i)) return "lo";
-    for (size_t i = lo + g->size; i < total; i++) if (g->base[i] != gbuf_canary(i)) return "hi";
+    size_t start = lo > g->pad + 64 ? lo - g->pad - 64 : 0;
+    for (size_t i = start; i < lo; i++) if (g->base[i] != gbuf_canary(i)) return "lo";
+    for (uint8_t *q = g->p + g->size; q < g->end; q++) if (*q != gbuf_canary((size_t)(q - g->base))) return "hi";
     return "ok";
 }
-void gbuf_free(gbuf *g) { free(g->base); g->base = NULL; }
+void gbuf_free(gbuf *g) { if (g->base) munmap(g->base, g->maplen); g->base = NULL; }
 
 gpage gpage_new(const uint8_t *src, size_t len) {
     gpage g;
@@ -377,7 +393,11 @@ int main(int argc, char **argv) {
         for (int t = 0; t < threads; t++) { tc[t].id = t; tc[t].nthreads = threads; tc[t].expect = expect; pthread_create(&th[t], NULL, thread_main, &tc[t]); }
         long mism = 0;
         for (int t = 0; t < threads; t++) { pthread_join(th[t], NULL); mism += tc[t].mismatches; }
-        printf("threads=%d cases=%zu mismatches=%ld\n", threads, g_ncases, mism);
+        long faults = 0;
+        for (size_t i = 0; i < g_ncases; i++) if (strstr(expect[i], " fault=")) faults++;
+        printf("threads=%d cases=%zu mismatches=%ld faults=%ld\n", threads, g_ncases, mism, faults);
+        long shown = 0;
+        for (size_t i = 0; i < g_ncases && shown < 200; i++) if (strstr(expect[i], " fault=")) { printf("FAULT %.300s\n", expect[i]); shown++; }
         for (int t = 0; t < threads; t++) if (tc[t].first) { printf("MISMATCH thread=%d %s\n", t, tc[t].first); break; }
         fflush(stdout);
         return 0;
@@ -426,9 +446,18 @@ int main(int argc, char **argv) {
              * number of arguments), discard its output */
             size_t j = (size_t)(rnd() % g_ncases);
             size_t apilen = strcspn(g_cases[i], " ");
-            for (size_t tries = 0; tries < 64; tries++) {
+            size_t commas_i = 0;
+            for (const char *q = g_cases[i]; *q; q++) commas_i += (*q == ',');
+            int have = 0;
+            for (size_t tries = 0; tries < 400; tries++) {
                 size_t cand = (size_t)(rnd() % g_ncases);
-                if (cand != i && !strncmp(g_cases[cand], g_cases[i], apilen + 1)) { j = cand; break; }
+                if (cand == i || strncmp(g_cases[cand], g_cases[i], apilen + 1)) continue;
+                if (!have) { j = cand; have = 1; } /* same api */
+                size_t commas_c = 0;
+                for (const char *q = g_cases[cand]; *q; q++) commas_c += (*q == ',');
+                /* best: same api, same number of list elements, different text
+                 * (a stale "already analysed this count" shortcut needs exactly that) */
+                if (commas_c == commas_i && strcmp(g_cases[cand], g_cases[i])) { j = cand; break; }
             }
             char *c = strdup(g_cases[j]);
             char *o = run_case(c);
